@@ -49,7 +49,7 @@ PROPS['C19'] = dict(
 
 PROPS['C20'] = dict(
     props='props/C20.v',
-    models=['Dex', 'DexCheck', 'Ledger', 'DexBatch'],
+    models=['Dex', 'DexCheck', 'Ledger', 'LedgerCheck', 'LedgerBlock', 'LedgerBlockCheck', 'DexBatch'],
     harness='c20',
     args=dict(quick=['-fn', '600', '-swap', '200', '-withdraw', '200', '-deposit', '200', '-merge', '40', '-pipeline', '3', '-steps', '60'],
               escalated=['-fn', '1500', '-swap', '600', '-withdraw', '600', '-deposit', '600', '-merge', '150', '-pipeline', '8', '-steps', '80'],
